@@ -13,6 +13,8 @@ Notation kv := (K * V)%type.
 Definition same_cb_log (w w' : world) : Prop := log w' = log w.
 
 (* ---- insert_ii ---- *)
+(* on overflow the rejected key and value are destroyed (once) by the unwinding
+   and the container is untouched; this holds for both values of [debug] *)
 Lemma insert_ii_lawful k v u w :
   WF (self w) ->
   wp (insert_ii E debug k v u)
@@ -21,9 +23,10 @@ Lemma insert_ii_lawful k v u w :
         (elems (self w'), fst r, snd r) = l_insert ck (elems (self w)) k v u /\
         (find_idx ck (ck k) (elems (self w)) = None -> len (self w) < cap (self w)))
      (fun w' =>
-        stable w w' /\ find_idx ck (ck k) (elems (self w)) = None /\ len (self w) = cap (self w)) w.
+        self w' = self w /\ logged w w' (ev_drops (idK E k ++ idV E v)) /\
+        find_idx ck (ck k) (elems (self w)) = None /\ len (self w) = cap (self w)) w.
 Proof.
-  intros Hw. unfold insert_ii. apply wp_bind.
+  intros Hw. unfold insert_ii. apply wp_bind. apply wp_on_unwind_nopanic.
   eapply wp_mono; [apply (scan_lawful ck (test_k E k) (ck k)); [apply (cls_test_k E ck cq HL) | exact Hw] | | intros w' []]; cbn beta.
   intros r w1 [[Hs1 Hl1] ->]. unfold l_insert.
   destruct (find_idx ck (ck k) (elems (self w))) as [i|] eqn:Hf.
@@ -38,16 +41,27 @@ Proof.
       split; [apply WF_set_slot_some; auto|]. split; [apply cap_set_slot|]. split; [exact Hl1|].
       split; [|discriminate]. rewrite elems_set_slot by auto. reflexivity.
   - apply wp_bind. apply wp_get_len. apply wp_bind. apply wp_get_cap. rewrite Hs1.
-    apply wp_bind. apply wp_dbg_assert.
-    + intros _. apply wp_bind. apply wp_p_write_checked; rewrite Hs1.
-      * intros Hc. apply wp_bind. apply wp_set_len. apply wp_ret. simp_w.
-        split; [apply WF_append; auto|]. split; [rewrite cap_set_len, cap_set_slot; reflexivity|].
-        split; [exact Hl1|]. split; [|intros _; exact Hc].
-        rewrite elems_append by auto. rewrite (elems_length _ Hw). reflexivity.
-      * intros Hc. split; [split; assumption|]. split; [reflexivity|].
-        pose proof (WF_len_le_cap _ Hw). lia.
-    + intros _ Hc. split; [split; assumption|]. split; [reflexivity|].
-      apply Nat.ltb_ge in Hc. pose proof (WF_len_le_cap _ Hw). lia.
+    assert (Hover : forall w2, self w2 = self w1 -> log w2 = log w1 -> cap (self w) <= len (self w) ->
+              wp (unwind_pair E (k, v))
+                 (fun _ w' => self w' = self w /\ logged w w' (ev_drops (idK E k ++ idV E v)) /\
+                              @None nat = None /\ len (self w) = cap (self w))
+                 (fun w' => self w' = self w /\ logged w w' (ev_drops (idK E k ++ idV E v)) /\
+                              @None nat = None /\ len (self w) = cap (self w)) w2).
+    { intros w2 Hs2 Hl2 Hc.
+      eapply wp_mono; [apply (unwind_pair_lawful E (k, v) w2) | | intros w' []]; cbn beta.
+      intros _ w' [Hs3 Hl3]. cbn [fst snd] in Hl3.
+      split; [congruence|]. split; [unfold logged in *; congruence|]. split; [reflexivity|].
+      pose proof (WF_len_le_cap _ Hw). lia. }
+    apply wp_bind. apply wp_on_unwind. apply wp_bind. apply wp_dbg_assert.
+    + intros _. apply wp_check_index; rewrite Hs1.
+      * intros Hc. apply wp_bind. apply wp_p_write_checked; rewrite Hs1.
+        -- intros _. apply wp_bind. apply wp_set_len. apply wp_ret. simp_w.
+           split; [apply WF_append; auto|]. split; [rewrite cap_set_len, cap_set_slot; reflexivity|].
+           split; [exact Hl1|]. split; [|intros _; exact Hc].
+           rewrite elems_append by auto. rewrite (elems_length _ Hw). reflexivity.
+        -- intros Hc'. lia.
+      * intros Hc. apply Hover; auto.
+    + intros _ Hc. apply Nat.ltb_ge in Hc. apply Hover; auto.
 Qed.
 
 (* ---- remove_index_read is swap_remove (no callbacks: any environment) ---- *)
